@@ -2,7 +2,7 @@ SPEC = {
     "lean_modules": ["AM.Props.C20"],
     "theorems": [
         "AM.Retry.recoverable_retried_until_deadline", "AM.Retry.unrecoverable_not_retried", "AM.Retry.failure_reported",
-        "AM.Retry.stage_success", "AM.Retry.hang_is_failure",
+        "AM.Retry.stage_success", "AM.Retry.hang_is_failure", "AM.Retry.request_timeout_retried", "AM.Retry.http_status_classes",
         "AM.Fanout.log_only_after_success", "AM.Fanout.success_is_logged", "AM.Fanout.failed_retry_fails_chain",
         "AM.Fanout.chain_order", "AM.Fanout.sibling_isolated",
         "AM.TemplateData.data_lists_exactly_batch", "AM.TemplateData.sent_spec", "AM.TemplateData.status_firing_iff_any",
@@ -14,13 +14,17 @@ SPEC = {
         {"name": "retry", "pkg": "./retry", "search_cases": 12000},
         {"name": "trunc", "pkg": "./trunc", "search_cases": 60000},
         {"name": "tmpldata", "pkg": "./tmpldata", "search_cases": 15000},
+        # real time: the real webhook notifier with a per-request timeout, alone and inside the real RetryStage
+        {"name": "webhook", "pkg": "./webhook", "search_cases": 60, "timeout_quick": 300, "timeout_thorough": 900},
     ],
     "rule": "retry: the real pipeline from notify.PipelineBuilder.New (gossip-settle, mute/time stages with empty inhibitor/silencer/intervener, then per "
             "integration Wait→Dedup→Retry→SetNotifies fanned out) with 1-3 scripted notifiers (0-6 scripted outcomes each: ok/recoverable/unrecoverable/hang, "
             "durations from 0 to beyond the deadline), fake NotificationLog, flush deadline 0.3 s-3 min, cluster wait 0/50/500 ms, 1-4 alerts firing/resolved, "
             "send_resolved on/off, under synctest; every attempt observed at its virtual instant; backoff instants are accepted against the randomised "
             "exponential windows, not predicted. tmpldata: Template.Data and the real webhook notifier's JSON (loopback httptest) on batches of 0-5 alerts over a "
-            "3x3 label alphabet incl. empty annotation values; trunc: TruncateInRunes/InBytes on strings of 1-4-byte runes with limits around rune and byte counts "
+            "3x3 label alphabet incl. empty annotation values; webhook (real time): the real notify/webhook notifier (real net/http client) with a per-request timeout of 30-120 ms against a loopback endpoint that hangs "
+            "or answers 2xx/4xx/5xx per script, as single Notify calls under a flush context a minute long and inside the real RetryStage (flush deadline 20-30 s, one or two "
+            "recoverable failures, then the attempt that ends the loop); trunc: TruncateInRunes/InBytes on strings of 1-4-byte runes with limits around rune and byte counts "
             "(4% invalid UTF-8, totality only). non-trivial = hits a tagged branch.",
     "assumptions": [
         "the stage order (Wait, Dedup, Retry, SetNotifies) and the outer MultiStage order are read from notify/notify.go by a go/ast fact check on every run and compared with AM.Fanout.receiverOrder",
